@@ -111,7 +111,12 @@ def substitution_loops(run, F, E, label):
             if root_name == 'initialEnter':
                 c = cfgmod.cfg_of(root)
                 # a guard round = a GuardControl constructed here or in a callee (whether the helper exists or its body is written out)
-                pre = [n for n in anchors.guard_round_sites(F, E, root, c) if not c.in_loop(n)]
+                owners = set(f_.id for f_, _ in found)
+
+                def leads_to_loop(n):       # the call through which the loop's own function is reached (the loop lives in a helper)
+                    hs = [F.fn(n.e['fn'])] if n.kind == 'call' and n.e.get('fn') is not None else []
+                    return any(h is not None and (h.id in owners or any(k.id in owners for k in E.calls_star(h).values())) for h in hs)
+                pre = [n for n in anchors.guard_round_sites(F, E, root, c) if not c.in_loop(n) and not leads_to_loop(n)]
                 own_loop = any(fn is root for fn, st in found)
                 want = 1
                 run.ob('C04.a', 'R_::initialEnter evaluates the initial state\'s entry guards exactly once before the redirect loop [%s]' % label,
